@@ -337,10 +337,13 @@ class View(object):
         ent = self.schema.by_name[o.ent]
         # mark first so that cycles terminate; Pony marks at the end but recursion on the same object returns early
         # only through status - a cascade cycle back to x would recurse forever in Pony as well, so schemas avoid it
+        trace = getattr(self, 'trace', None)
         for a in ent.sets():
             members = self.partners(a, x)
             if not members:
                 continue
+            if trace is not None:
+                trace.append((x, a))
             if a.cascade:
                 for m in sorted(members):
                     self.delete(m, depth + 1)
@@ -353,6 +356,8 @@ class View(object):
             val = self.get_one(a, x)
             if val is None:
                 continue
+            if trace is not None:
+                trace.append((x, a))
             if not r.is_set:
                 if a.cascade:
                     self.unlink(a, x, val)
